@@ -131,13 +131,25 @@ fn case_strategy(max_steps: usize) -> impl Strategy<Value = Case> {
 // Harness-side bookkeeping (reference model of causality, membership and obligations)
 // ---------------------------------------------------------------------------------------------
 
-#[derive(Clone, Debug)]
+#[derive(Clone)]
 enum Kind {
     Create { members: BTreeSet<usize> },
     Add { who: usize },
     Remove { who: usize },
     Update,
     Send { secret: GroupSecretId, view: BTreeSet<usize> },
+}
+
+impl std::fmt::Debug for Kind {
+    fn fmt(&self, f: &mut std::fmt::Formatter<'_>) -> std::fmt::Result {
+        match self {
+            Kind::Create { members } => write!(f, "Create {members:?}"),
+            Kind::Add { who } => write!(f, "Add {who}"),
+            Kind::Remove { who } => write!(f, "Remove {who}"),
+            Kind::Update => write!(f, "Update"),
+            Kind::Send { secret, view } => write!(f, "Send with secret {} to {view:?}", short(secret)),
+        }
+    }
 }
 
 struct Published {
